@@ -15,10 +15,16 @@
    channel; a Failure answer must leave the worker's queryable view (QueryClustersHashes, QueryClusterById,
    QueryCertificatesFromWorkers) unchanged and the view must equal that of a library ConfigState fed with the same
    commands; the (command, answer, configuration) trace must be a behaviour of WorkerHandle with the open deviations.
+5. tools/props/c07_listen_faults.py (spec/WorkerCtl.tla with Faults = TRUE): the commands that touch sockets. The
+   environment holds / releases listener addresses (a foreign socket without SO_REUSEPORT), so ActivateListener is
+   refused by the OS: TLC checks P_C07_RefusedNoTrace / P_C07_ActiveListens / P_C07_ActivatedListens, every (state,
+   request | hold | release) transition is replayed on a real worker (answers, hook, views, client probes), seeded
+   fault runs of real workers are validated by Trace_WorkerCtl.tla. Runs in background threads next to 1-4.
 """
 import os
 
 import vlib
+from props import c07_listen_faults as lf
 from props import config_common as cc
 from props import sozu_compose
 
@@ -28,6 +34,10 @@ PID = "C07"
 def run(tier, replay=None):
     rep = vlib.Report(PID, tier)
     wd = vlib.workdir(PID)
+    if replay and lf.handles(replay):
+        lf.run_replay(rep, replay)
+    # listener commands under held addresses (WorkerCtl.tla, Faults): three background legs, merged at the end
+    faults = None if replay else lf.start(tier)
     # the composed leg (spec/Sozu.tla: main process + real workers): drift / rejected-leaves-no-trace across processes
     sozu_compose.run_leg(rep, tier, PID, replay)
     bins = vlib.cargo_build(["replay_config"] + cc.drive_bins(worker=True))
@@ -68,6 +78,8 @@ def run(tier, replay=None):
                        "(valid, invalid, duplicate, missing target, unknown enum, multi-field patches with one bad field) is "
                        "dispatched on a clone and compared with the spec: result, full equality on Err, predicted effect on Ok. "
                        "distinct_nontrivial = distinct (state, command) pairs compared" % cc.BOUNDS[tier])
+    if faults is not None:
+        rep.cov["rule"] += lf.finish(faults, rep)
     rep.assumptions += [
         "object universes are small (2 addresses, 2 clusters, 3-4 backend identities, 4-5 frontend keys, 2-3 certificates + 2 malformed ones); listener records are abstracted to representative fields, the other fields carry filler and are covered by the full-equality comparison on Err",
         "the worker's configuration is observed through its query verbs (clusters, their frontends and backends, certificates by fingerprint); listeners are not queryable from a worker. The main process's state after a failed fan-out is not decided here (see design_notes/C07.md)",
